@@ -121,6 +121,8 @@ func (c *Ctx) RunDocs(fams []string, fn DocFn) {
 			} else {
 				workload.W2(24, c.Seed, sink)
 			}
+		case "W1R":
+			workload.W1R(sink)
 		case "W2T":
 			workload.W2T(c.Thorough(), sink)
 		case "W2small": // a smaller sample for monitors whose per-case cost is high
